@@ -22,6 +22,7 @@ AltVal(id) ==
       [] PropType(id) = "u16" -> 65535
       [] PropType(id) = "u32" -> 2147483647
       [] PropType(id) = "vbi" -> 268435455
+      [] id = 8 -> S(1, 114)                          \* a Response Topic is a topic name: at least one character (4.7.3)
       [] PropType(id) = "str" -> S(0, 0)
       [] PropType(id) = "bin" -> S(0, 0)
       [] OTHER -> [k |-> S(0, 0), v |-> S(0, 0)]
@@ -177,6 +178,8 @@ In311 ==
 ----------------------------------------------------------------------------------------------------
 \* client-to-server cases (what the client can be made to emit through its public API)
 
+ClientDisconnectCodes == {0, 4, 128, 129, 130, 131, 144, 147, 148, 149, 150, 151, 152, 153}
+ServerOnlyDisconnectCodes == {135, 137, 139, 141, 142, 143, 154, 155, 156, 157, 158, 159, 160, 161, 162}
 Will(qos, retain, topic, payload, props) == [qos |-> qos, retain |-> retain, topic |-> topic, payload |-> payload, props |-> props]
 NoWill == Will(0, FALSE, S(0, 0), S(0, 0), <<>>)
 Connect(v5, clean, ka, cid, hasWill, will, hasUser, user, hasPass, pass, props) ==
@@ -196,8 +199,10 @@ Out(v5) ==
         pvs == IF v5 THEN PropVariants("SUBSCRIBE") ELSE << <<>> >>
         pvu == IF v5 THEN PropVariants("UNSUBSCRIBE") ELSE << <<>> >>
         pvd == IF v5 THEN PropVariants("DISCONNECT") ELSE << <<>> >>
-    IN  SetSeq({Legal(Connect(v5, c, ka, S(n, 99), FALSE, NoWill, hu, S(2, 117), hp, S(3, 119), <<>>), "flags") :
-                   c \in BOOLEAN, ka \in {0, 1200}, n \in {0, 5}, hu \in BOOLEAN, hp \in BOOLEAN})
+    IN  \* 3.1.1 [MQTT-3.1.2-22]: "If the User Name Flag is set to 0, the Password Flag MUST be set to 0" (MQTT 5 dropped the rule)
+        SetSeq({IF v5 \/ hu \/ ~hp THEN Legal(Connect(v5, c, ka, S(n, 99), FALSE, NoWill, hu, S(2, 117), hp, S(3, 119), <<>>), "flags")
+                ELSE Bad("password-without-user-name", Connect(v5, c, ka, S(n, 99), FALSE, NoWill, hu, S(2, 117), hp, S(3, 119), <<>>), "the API can express it")
+                : c \in BOOLEAN, ka \in {0, 1200}, n \in {0, 5}, hu \in BOOLEAN, hp \in BOOLEAN})
         \o [i \in 1..Len(pvc) |-> Legal(Connect(v5, TRUE, 60, S(4, 99), FALSE, NoWill, FALSE, S(0, 0), FALSE, S(0, 0), pvc[i]), "properties")]
         \o SetSeq({Legal(Connect(v5, TRUE, 60, S(4, 99), TRUE, Will(q, r, S(3, 119), S(n, 112), <<>>), TRUE, S(2, 117), TRUE, S(3, 119), <<>>), "will flags") :
                    q \in 0..2, r \in BOOLEAN, n \in {0, 9}})
@@ -223,6 +228,10 @@ Out(v5) ==
         \o [i \in 1..Len(pvu) |-> Legal(Unsubscribe(v5, 12, pvu[i], <<S(3, 102), S(200, 103)>>), "properties")]
         \o [i \in 1..Len(pvd) |-> Legal(Disc(v5, IF Len(pvd[i]) = 0 THEN 0 ELSE 4, pvd[i], "full"), "properties")]
         \o <<Legal(Disc(v5, 0, <<>>, "full"), "normal disconnection")>>
+        \* 3.14.2.1: reason codes a client may send, and the ones only a server may send
+        \o (IF v5 THEN [i \in 1..Len(SetSeq(ClientDisconnectCodes)) |-> Legal(Disc(v5, SetSeq(ClientDisconnectCodes)[i], <<>>, "full"), "client reason code")]
+                        \o [i \in 1..Len(SetSeq(ServerOnlyDisconnectCodes)) |-> Bad("server-only-reason-code", Disc(v5, SetSeq(ServerOnlyDisconnectCodes)[i], <<>>, "full"), "the API can express it")]
+            ELSE <<>>)
         \o [k \in 1..4 |-> Legal(Ack(AckTypes[k], v5, 4660, 0, <<>>, "short"), "acknowledgement generated by the client")]
         \o <<Legal([type |-> "PINGREQ", v5 |-> v5], "")>>
 
